@@ -1,18 +1,23 @@
 """C02 -- every link obeys the head-flow law of its type and status (the registered residuals and the status logic)."""
 import ast
+import collections
+import re
+import copy as _copy
+import enum
 import itertools
 
 import sympy as sp
 
 from ..src import walk, calls, call_name, dotted, const, loc, unparse, norm, AnchorError, ExtractError
 from ..symx import SymExec, Opaque, CondExpr, Constraint, Ineq, State, is_zero, equal, rat
-from ..peval import Evaluator, Obj, Unknown, Raised
+from ..concrete import World, stdlib_overrides, Namespace, Instance, ClassRef, ProgramError, Unsupported
 from .. import builders as B
 from ..builders import Q, HS, HE, canon, canon_symbol as cs
 
 CON = B.CONSTRAINT
 PAR = B.PARAM
 ELEM = "wntr/network/elements.py"
+BASE = "wntr/network/base.py"
 CTRL = "wntr/network/controls.py"
 
 EXPLANATION = (
@@ -143,23 +148,326 @@ def sign_on_interval(P, q, interval):
 
 
 
-def status_table(repo, cname):
-    """{(user status, internal status): effective status} of <cname>.status by finite evaluation over LinkStatus x LinkStatus (names without prefix)."""
-    def ls(name):
-        return Obj("LinkStatus." + ("Open" if name == "Opened" else name))
+# ------------------------------------------------------------------ the builders, run for ONE concrete kind of link at a time
+# A builder's loop body is path-enumerated (SymExec) with every test on the link's status, its isolation flag and the kind of its end nodes
+# DECIDED for the case at hand (three-valued evaluation of the test's canonical text): which branch a closed / open / active link takes is
+# then a fact of the run, however the tests are spelled, ordered, nested or merged.  Tests on anything else still split the path.
+Case = collections.namedtuple("Case", "status isolated sj ej")
+Case.closed = property(lambda c: c.status == "Closed" or c.isolated)
+Case.nodes = property(lambda c: ("J" if c.sj else "S") + ("J" if c.ej else "S"))
+VALVE_BUILDERS = ("prv_headloss_constraint", "psv_headloss_constraint", "fcv_headloss_constraint", "tcv_headloss_constraint")
 
-    def class_attr(d):
-        parts = d.split(".")
-        if len(parts) == 2 and parts[0] == "LinkStatus":
-            return ls(parts[1])
-        raise Unknown(d)
-    fn = repo.func(ELEM, "%s.status" % cname, kind="getter")
+
+def link_cases(bname):
+    statuses = ("Closed", "Open", "Active") if bname in VALVE_BUILDERS else ("Closed", "Open")
+    return [Case(st, iso, sj, ej) for st in statuses for iso in (False, True) for sj in (True, False) for ej in (True, False)]
+
+
+def _status_member(n):
+    d = dotted(n)
+    parts = d.split(".") if d else []
+    if len(parts) >= 2 and parts[-2] == "LinkStatus":
+        return "Open" if parts[-1] == "Opened" else parts[-1]
+    return None
+
+
+def _is_status_read(n):
+    return isinstance(n, ast.Attribute) and n.attr == "status"
+
+
+def _tri(n, case):
+    """three-valued (True / False / None = not decided by the case) value of a test"""
+    if isinstance(n, ast.Constant):
+        return bool(n.value)
+    if isinstance(n, ast.BoolOp):
+        vals = [_tri(v, case) for v in n.values]
+        if isinstance(n.op, ast.And):
+            return False if any(v is False for v in vals) else (None if any(v is None for v in vals) else True)
+        return True if any(v is True for v in vals) else (None if any(v is None for v in vals) else False)
+    if isinstance(n, ast.UnaryOp) and isinstance(n.op, ast.Not):
+        v = _tri(n.operand, case)
+        return None if v is None else not v
+    if isinstance(n, ast.Compare) and len(n.ops) == 1:
+        op, a, b = n.ops[0], n.left, n.comparators[0]
+        if isinstance(op, (ast.Eq, ast.Is, ast.NotEq, ast.IsNot)):
+            for x, y in ((a, b), (b, a)):
+                m = _status_member(y)
+                if _is_status_read(x) and m is not None:
+                    r = case.status == m
+                    return r if isinstance(op, (ast.Eq, ast.Is)) else not r
+        if isinstance(op, (ast.In, ast.NotIn)) and _is_status_read(a) and isinstance(b, (ast.Tuple, ast.List, ast.Set)):
+            ms = [_status_member(e) for e in b.elts]
+            if all(m is not None for m in ms):
+                r = case.status in ms
+                return r if isinstance(op, ast.In) else not r
+        return None
+    if isinstance(n, ast.Attribute) and n.attr == "_is_isolated":
+        return case.isolated
+    if isinstance(n, ast.Call) and dotted(n.func) == "isinstance" and len(n.args) == 2 and not n.keywords:
+        who = unparse(n.args[0])
+        isj = case.sj if "start_node" in who and "end_node" not in who else (case.ej if "end_node" in who and "start_node" not in who else None)
+        types = n.args[1].elts if isinstance(n.args[1], ast.Tuple) else [n.args[1]]
+        names = {(dotted(t) or "?").split(".")[-1] for t in types}
+        if isj is None or not names <= {"Junction", "Tank", "Reservoir"}:
+            return None
+        if "Junction" in names:
+            return True if isj or names == {"Junction", "Tank", "Reservoir"} else (None if len(names) > 1 else False)
+        return False if isj else (True if names == {"Tank", "Reservoir"} else None)
+    return None
+
+
+def decide_test(txt, case):
+    try:
+        node = ast.parse(txt, mode="eval").body
+    except SyntaxError:
+        return None
+    return _tri(node, case)
+
+
+_CASE_ATOM = re.compile(r"\bstatus\b|_is_isolated|\bisinstance\(")
+
+
+def run_case(repo, bname, case):
+    """-> (fn, [Path], SymExec) of <bname>.build for a link of the given case"""
+    def hook(txt, node, st):
+        r = B.std_test_hook(txt, node, st)
+        return decide_test(txt, case) if r is None else r
+    fn, paths, ex = B.run_builder(repo, CON, bname + ".build", test_hook=hook)
+    for p in paths:
+        asserted = {e[1]: e[2] for e in p.st.events if e[0] == "assert"}
+        p.open_conds = []        # the tests that still distinguish the paths of this case
+        for t, v in p.conds:
+            if t in asserted:
+                # SymExec takes an assertion as an assumption of the path: for this kind of link it either holds or the path ends in an AssertionError
+                d = decide_test(t, case)
+                if d is not None:
+                    if d != asserted[t] and not p.st.raised:
+                        p.st.raised = "AssertionError: assert %s%s" % ("" if asserted[t] else "not ", t)
+                    continue
+            if _CASE_ATOM.search(t):
+                raise ExtractError("%s: the test `%s` on the link's status / isolation / end-node kind is not decided by the case %s" % (bname, t, case))
+            p.open_conds.append((t, v))
+    return fn, paths, ex
+
+
+def path_tag(p):
+    """what still distinguishes the paths of one case (tests the case does not decide), for construct names"""
+    oc = p.open_conds
+    if not oc:
+        return ""
+    if len(oc) == 1 and re.search(r"get_head_curve_coefficients\(\)\[2\] <= 1$", oc[0][0]):
+        return " C<=1" if oc[0][1] else " C>1"
+    return " " + " & ".join(("" if v else "not ") + "(" + t + ")" for t, v in oc)[-60:]
+
+
+def loop_key(p, dictname):
+    """text of the store target m.<dict>[<loop variable>] on this path"""
+    loops = [e for e in p.st.events if e[0] == "loop"]
+    return "m.%s[%s]" % (dictname, loops[-1][1]) if loops else None
+
+
+# ------------------------------------------------------------------ finite evaluation of repository code on a mock world (sa/concrete.py)
+# The status getters, the pump / check-valve conditions and the head-curve fit are RUN by the in-house interpreter on objects of the
+# repository's own classes (their parsed AST; nothing is imported or executed natively): what they return decides, not how they are written.
+class Mock(object):
+    """plain attribute bag handed to the interpreted code (a read of an attribute it does not have is `could not analyse`)."""
+    _sa_mock = True
+
+    def __init__(self, label="mock", **kw):
+        self._label = label
+        self.__dict__.update(kw)
+
+    def __repr__(self):
+        return "<%s>" % self._label
+
+
+class CurveRegistry(Mock):
+    """stand-in for the curve registry of a network: name -> Curve object; usage book-keeping is inert."""
+
+    def __init__(self, curves):
+        Mock.__init__(self, "curve registry")
+        self._curves = dict(curves)
+
+    def __getitem__(self, name):
+        return self._curves[name]
+
+    def __contains__(self, name):
+        return name in self._curves
+
+    def __iter__(self):
+        return iter(self._curves)
+
+    def __len__(self):
+        return len(self._curves)
+
+    def get(self, name, default=None):
+        return self._curves.get(name, default)
+
+    def add_usage(self, *a, **k):
+        return None
+
+    remove_usage = set_curve_type = add_usage
+
+
+def link_status_enum(repo):
+    """LinkStatus as an IntEnum with the member values read from wntr/network/base.py (Open / Opened are aliases there)"""
+    cls = repo.cls(BASE, "LinkStatus")
+    members = collections.OrderedDict()
+    for s in cls.body:
+        if isinstance(s, ast.Assign) and len(s.targets) == 1 and isinstance(s.targets[0], ast.Name) and isinstance(const(s.value), int):
+            members[s.targets[0].id] = const(s.value)
+    for need in ("Closed", "Open", "Active"):
+        if need not in members:
+            raise AnchorError("LinkStatus.%s vanished" % need)
+    if len({members["Closed"], members["Open"], members["Active"]}) != 3:
+        raise ExtractError("LinkStatus: Closed / Open / Active are not distinct")
+    return enum.IntEnum("LinkStatus", list(members.items()))
+
+
+def _curve_fit_stub(f, xdata, ydata, p0=None, *a, **k):
+    """scipy.optimize.curve_fit is NOT modelled: the stand-in hands back the start values (the 3-and-more-point regression is not analysed;
+    its result only serves as `some coefficients that depend on the points` for the memo scenarios)."""
+    if p0 is None:
+        raise Unsupported("curve_fit without start values")
+    return list(p0), None
+
+
+def make_world(repo):
+    """-> (World, LinkStatus stand-in); cached per Repo object."""
+    cached = getattr(repo, "_c02_world", None)
+    if cached is not None:
+        return cached
+    ov, _state = stdlib_overrides()
+    LS = link_status_enum(repo)
+    ov.update({
+        "wntr.network.base.LinkStatus": LS,
+        "six": Namespace("six", with_metaclass=lambda meta, *bases: (bases[0] if bases else object), string_types=(str,), integer_types=(int,)),
+        "copy": Namespace("copy", deepcopy=_copy.deepcopy, copy=_copy.copy),
+        "scipy.optimize.curve_fit": _curve_fit_stub,
+    })
+    world = World(repo, ov, fuel=20000000)
+    try:
+        repo._c02_world = (world, LS)
+    except AttributeError:
+        pass
+    return world, LS
+
+
+def repo_class(world, rel, name):
+    c = world.function(rel, name)
+    if not isinstance(c, ClassRef):
+        raise AnchorError("%s is not a class of %s" % (name, rel))
+    return c
+
+
+def instance_of(world, rel, clsname, **attrs):
+    """an instance of a repository class whose state is set directly (its constructor is not part of the fact under analysis)."""
+    inst = Instance(repo_class(world, rel, clsname))
+    inst._attrs.update(attrs)
+    return inst
+
+
+def interpreted(what, thunk):
+    """run thunk(); -> (value, None) or (None, text of the exception the interpreted program raised).  A program error that only says the
+    mock world lacks something (AttributeError / NameError on our stand-ins) is `could not analyse`."""
+    try:
+        return thunk(), None
+    except ProgramError as e:
+        if isinstance(e.exc, (AttributeError, NameError)):
+            raise ExtractError("%s needs something the mock world does not provide: %s (line %s)" % (what, e, e.lineno))
+        return None, "%s at line %s" % (e, e.lineno)
+
+
+def status_table(repo, cname):
+    """{(user status, internal status): effective status} of <cname>.status: the getter is run on an instance of the class for every pair of
+    LinkStatus x LinkStatus (names without prefix; Opened is reported as Open)."""
+    world, LS = make_world(repo)
     out = {}
     for u, i in itertools.product(["Closed", "Open", "Active"], repeat=2):
-        ev = Evaluator({"self": Obj("self", {"_user_status": ls(u), "_internal_status": ls(i)})}, class_attr)
-        got = ev.run(fn.body)
-        out[(u, i)] = getattr(got, "name", str(got)).split(".")[-1]
+        inst = instance_of(world, ELEM, cname, _user_status=LS[u], _internal_status=LS[i], _link_name="L")
+        got, err = interpreted("%s.status" % cname, lambda: world.interp.getattr_(inst, "status"))
+        if err is not None:
+            out[(u, i)] = "raises " + err
+        elif isinstance(got, LS):
+            out[(u, i)] = LS(int(got)).name if LS(int(got)).name != "Opened" else "Open"
+        else:
+            out[(u, i)] = repr(got)
     return out
+
+
+def class_constants(repo, rel, cname):
+    """numeric class-level constants of a class {name: value}"""
+    out = {}
+    for n in repo.cls(rel, cname).body:
+        tgt, val = None, None
+        if isinstance(n, ast.Assign) and len(n.targets) == 1 and isinstance(n.targets[0], ast.Name):
+            tgt, val = n.targets[0].id, const(n.value)
+        elif isinstance(n, ast.AnnAssign) and isinstance(n.target, ast.Name) and n.value is not None:
+            tgt, val = n.target.id, const(n.value)
+        if tgt is not None and isinstance(val, (int, float)) and not isinstance(val, bool):
+            out[tgt] = val
+    return out
+
+
+def named_constant(cc, key, default=None):
+    """the class constant called <key> up to case and leading underscores (Htol / _Htol / HTOL), else the default"""
+    for k, v in cc.items():
+        if k.strip("_").lower() == key.lower():
+            return v
+    return default
+
+
+# EPANET's status-check tolerances in SI units (0.0005 ft, 0.0001 cfs): the reference when a condition class does not name its own
+HTOL_SI = 0.0001524
+QTOL_SI = 2.83168e-6
+
+
+def condition_value(repo, cname, heads, flow, internal="Open", shutoff=None):
+    """<cname>(wn, link).evaluate() for a link from a node with head heads[0] to a node with head heads[1] carrying `flow`;
+    the condition object is built by the class's own constructor on mock nodes / link / network.  -> (value, error text)"""
+    world, LS = make_world(repo)
+    s, e = Mock("start node", head=heads[0], name="S", elevation=0.0), Mock("end node", head=heads[1], name="E", elevation=0.0)
+    st = LS[internal]
+    link = Mock("link", name="L", start_node=s, end_node=e, start_node_name="S", end_node_name="E", flow=flow, _flow=flow, status=st, _internal_status=st,
+                _user_status=LS["Open"], speed_timeseries=Mock("speed", at=lambda t: 1.0, base_value=1.0, pattern_name=None),
+                get_head_curve_coefficients=lambda: (shutoff, 1.0, 1.0))
+    nodes = {"S": s, "E": e}
+    wn = Mock("network", sim_time=0, get_node=lambda n: nodes[n] if isinstance(n, str) else n, get_link=lambda n: link)
+    ctor = repo_class(world, CTRL, cname)
+
+    def thunk():
+        cond = ctor(wn, link)
+        return world.interp.getattr_(cond, "evaluate")()
+    return interpreted("%s.evaluate" % cname, thunk)
+
+
+def head_pump(repo, curves, use):
+    """a HeadPump named P in a network whose curve registry holds `curves` ({name: points}); the curve `use` is assigned to it the way
+    WaterNetworkModel.add_pump does (pump.pump_curve_name = name).  -> (pump, {name: Curve instance})"""
+    world, LS = make_world(repo)
+    C = repo_class(world, ELEM, "Curve")
+    objs = collections.OrderedDict((nm, C(nm, "HEAD", list(pts))) for nm, pts in curves.items())
+    pump = instance_of(world, ELEM, "HeadPump", _link_name="P", _curve_reg=CurveRegistry(objs), _pump_curve_name=None,
+                       _user_status=LS["Open"], _internal_status=LS["Active"])
+    world.interp.setattr_(pump, "pump_curve_name", use)
+    return pump, objs
+
+
+def head_curve_coefficients(repo, pump):
+    """pump.get_head_curve_coefficients() -> ((A, B, C), None) or (None, error text)"""
+    world, _ = make_world(repo)
+    got, err = interpreted("HeadPump.get_head_curve_coefficients", lambda: world.interp.getattr_(pump, "get_head_curve_coefficients")())
+    if err is None:
+        if not (isinstance(got, (tuple, list)) and len(got) == 3 and all(isinstance(x, (int, float)) and not isinstance(x, bool) for x in got)):
+            raise ExtractError("get_head_curve_coefficients returned %r, not three numbers" % (got,))
+        got = tuple(got)
+    return got, err
+
+
+def fresh_fit(repo, points):
+    """the coefficients a NEW pump computes for a NEW curve with these points"""
+    pump, _ = head_pump(repo, {"fresh": list(points)}, "fresh")
+    return head_curve_coefficients(repo, pump)
 
 
 def run(repo, chk):
@@ -169,80 +477,80 @@ def run(repo, chk):
 
     per = {}
     for bname in LINK_BUILDERS:
-        fn, paths, ex = B.run_builder(repo, CON, bname + ".build")
-        chk.fn(fn)
-        per[bname] = (fn, paths, ex)
         dictname = bname.replace("_constraint", "")
+        runs = []
+        for case in link_cases(bname):
+            fn, paths, ex = run_case(repo, bname, case)
+            runs.append((case, [p for p in paths if not p.st.raised], ex))
+        chk.fn(fn)
+        per[bname] = (fn, runs)
         # ------------------------------------------------------------ R-C02-1
-        closed = [p for p in paths if any(v and ".status == LinkStatus.Closed or " in t and t.endswith("._is_isolated") for t, v in p.conds)]
-        opened = [p for p in paths if p not in closed]
-        if not closed:
-            chk.bad("R-C02-1", "%s: closed or isolated link => row `flow = 0`" % bname, loc(fn),
-                    "no path guarded by `status == LinkStatus.Closed or link._is_isolated` found", found=[p.label for p in paths][:3])
-        for p in closed:
-            st = p.stores("m.%s[" % dictname)
-            v = st[-1][1] if st else None
-            e = v.expr if isinstance(v, Constraint) else None
-            good = e is not None and not isinstance(e, CondExpr) and canon(S(ex, e))[0] == Q
-            chk.expect(good, "R-C02-1", "%s: closed or isolated link => row `flow = 0`" % bname, loc(fn, None),
-                       "a closed (or isolated) link must carry zero flow: the registered residual is the link's flow variable",
-                       expected="Constraint(m.flow[link_name])", found=str(e))
-        for p in opened:
-            if not any("LinkStatus.Closed" in t for t, v in p.conds):
-                chk.bad("R-C02-1", "%s: every head-loss row is guarded by the closed/isolated test" % bname, loc(fn), found=p.label)
+        for case, paths, ex in runs:
+            what = "%s link (status %s%s) [%s]" % ("closed or isolated" if case.closed else "open", case.status, ", isolated" if case.isolated else "", case.nodes)
+            if not paths:
+                chk.bad("R-C02-1", "%s: a %s gets a row" % (bname, what), loc(fn), "every path of the builder raises for this kind of link")
+                continue
+            for p in paths:
+                st = p.stores("m.%s[" % dictname)
+                # every path stores exactly one constraint under the link's name
+                chk.expect(len(st) == 1 and st[0][0] == loop_key(p, dictname) and isinstance(st[0][1], Constraint), "R-C02-1",
+                           "%s stores one constraint per link under the link's name [%s%s]" % (bname, what, path_tag(p)), loc(fn),
+                           expected=loop_key(p, dictname), found=[s_[0] for s_ in st])
+                if case.closed:
+                    v = st[-1][1] if st else None
+                    e = v.expr if isinstance(v, Constraint) else None
+                    good = e is not None and not isinstance(e, CondExpr) and canon(S(ex, e))[0] == Q
+                    chk.expect(good, "R-C02-1", "%s: closed or isolated link => row `flow = 0`" % bname, loc(fn, None),
+                               "a closed (or isolated) link must carry zero flow: the registered residual is the link's flow variable",
+                               expected="Constraint(m.flow[link_name])", found="%s: %s" % (what, e))
         req = {"status", "_is_isolated"} | ({"pump_curve_name"} if bname == "head_pump_headloss_constraint" else set())
-        B.check_updaters(chk, "R-C02-1", fn, bname, paths, req, loc(fn))
-        # every non-closed path stores exactly one constraint under the link's name
-        for p in opened:
-            st = p.stores("m.%s[" % dictname)
-            chk.expect(len(st) == 1 and st[0][0] == "m.%s[link_name]" % dictname and isinstance(st[0][1], Constraint), "R-C02-1",
-                       "%s stores one constraint per link under the link's name [%s]" % (bname, p.label[-60:]), loc(fn), found=[s[0] for s in st])
+        allp, seenl = [], set()
+        for case, paths, ex in runs:
+            for p in paths:
+                key = (p.label, tuple(p.updater_pairs()))
+                if key not in seenl:
+                    seenl.add(key)
+                    allp.append(p)
+        B.check_updaters(chk, "R-C02-1", fn, bname, allp, req, loc(fn))
 
     chk.floor("R-C02-1", 8 * 3)
 
-    # ---------------------------------------------------------------- per path formulas
+    # ---------------------------------------------------------------- per path formulas of the open cases
     def formulas(bname):
-        fn, paths, ex = per[bname]
+        fn, runs = per[bname]
         dictname = bname.replace("_constraint", "")
         out = []
-        for p in paths:
-            if any(v and "LinkStatus.Closed or" in t for t, v in p.conds):
+        for case, paths, ex in runs:
+            if case.closed:
                 continue
-            st = p.stores("m.%s[" % dictname)
-            if not st:
-                continue
-            brs = branches_of(st[-1][1])
-            if brs is None:
-                raise ExtractError("%s: stored value is not a Constraint on path %s" % (bname, p.label))
-            sj = None
-            ej = None
-            for t, v in p.conds:
-                if t.startswith("isinstance(") and "start_node_name" in t:
-                    sj = v
-                if t.startswith("isinstance(") and "end_node_name" in t:
-                    ej = v
-            out.append((p, brs, sj, ej))
-        return fn, ex, out
+            for p in paths:
+                st = p.stores("m.%s[" % dictname)
+                if not st:
+                    continue
+                brs = branches_of(st[-1][1])
+                if brs is None:
+                    raise ExtractError("%s: stored value is not a Constraint on path %s" % (bname, p.label))
+                out.append((case, p, brs, ex))
+        return fn, out
 
     n_orient = 0
     for bname in LINK_BUILDERS:
-        fn, ex, fl = formulas(bname)
-        for p, brs, sj, ej in fl:
+        fn, fl = formulas(bname)
+        for case, p, brs, ex in fl:
+            sj, ej = case.sj, case.ej
             for i, (g, e) in enumerate(brs):
                 Rraw = S(ex, e)
                 R, info = canon(Rraw)
-                tag = "%s [%s%s] branch %d" % (bname, "J" if sj else "S", "J" if ej else "S", i)
-                stat = "Active" if p.has("LinkStatus.Active", True) else ("Open" if p.has("LinkStatus.Open", True) or p.has("LinkStatus.Active", False) else "")
-                if p.has(" <= 1"):
-                    stat += " C<=1" if p.has(" <= 1", True) else " C>1"
-                tag += (" " + stat) if stat else ""
+                tag = "%s [%s] branch %d" % (bname, case.nodes, i)
+                stat = (case.status if bname in VALVE_BUILDERS else "") + path_tag(p)
+                tag += (" " + stat.strip()) if stat else ""
                 # binding of start_h / end_h: junction -> m.head[start_node_name], otherwise m.source_head[...]
                 for role, isj in (("Hs", sj), ("He", ej)):
                     for nm, i_ in info.get(role, []):
                         want = "head" if isj else "source_head"
                         chk.expect(i_.get("dict") == want, "R-C02-2", "%s: %s is read from m.%s" % (tag, role, want), loc(fn),
                                    "a junction's head is the variable m.head, a tank/reservoir's the parameter m.source_head", expected=want, found=nm)
-                is_setting = (bname in ("prv_headloss_constraint", "psv_headloss_constraint", "fcv_headloss_constraint") and "Active" in stat)
+                is_setting = (bname in ("prv_headloss_constraint", "psv_headloss_constraint", "fcv_headloss_constraint") and case.status == "Active")
                 if not is_setting:
                     negq = isinstance(g, Ineq) and canon(g.body)[0] == Q and g.lb is None and g.ub is not None and S(ex, g.ub) == 0
                     if bname == "head_pump_headloss_constraint" and len(brs) == 3 and i == 1:
@@ -267,8 +575,9 @@ def run(repo, chk):
         okc = got is not None and isinstance(got[0], sp.Basic) and got[0].is_number and abs(got[0] - want) <= tol * want
         chk.expect(okc, "R-C02-3", "constant %s = %s" % (nm, want), loc(B.CONSTANTS), "Hazen-Williams constant (SI): exponent 1.852, minor-loss exponent 2, k = 10.667",
                    expected=str(want), found=str(got[0]) if got else None)
-    fn, ex, fl = formulas("approx_hazen_williams_headloss_constraint")
-    for p, brs, sj, ej in fl:
+    fn, fl = formulas("approx_hazen_williams_headloss_constraint")
+    for case, p, brs, ex in fl:
+        sj, ej = case.sj, case.ej
         R, _ = canon(S(ex, brs[0][1]))
         L = sp.expand((HS - HE) - R)
         D = sp.simplify((L - hw(Q) - ml(Q)).xreplace({Q: QP}))
@@ -282,8 +591,9 @@ def run(repo, chk):
         dL = sp.simplify(sp.diff(L.xreplace({Q: QP}), QP))
         chk.expect(dL.is_positive is True or sign_of(dL) == 1, "R-C02-3", "approx H-W head loss increases with flow [%s%s]" % ("J" if sj else "S", "J" if ej else "S"), loc(fn),
                    expected="dL/dq > 0 for q > 0", found=str(dL))
-    fn, ex, fl = formulas("piecewise_hazen_williams_headloss_constraint")
-    for p, brs, sj, ej in fl:
+    fn, fl = formulas("piecewise_hazen_williams_headloss_constraint")
+    for case, p, brs, ex in fl:
+        sj, ej = case.sj, case.ej
         tagp = "piecewise H-W [%s%s]" % ("J" if sj else "S", "J" if ej else "S")
         if len(brs) != 3:
             chk.bad("R-C02-3", "%s has three branches" % tagp, loc(fn), found=len(brs))
@@ -356,10 +666,10 @@ def run(repo, chk):
 
     # ---------------------------------------------------------------- R-C02-5 pumps
     A, Bc, C = cs("A"), cs("B"), cs("C")
-    fn, ex, fl = formulas("head_pump_headloss_constraint")
-    pos = {s: s for s in ()}
-    for p, brs, sj, ej in fl:
-        tagp = "head pump [%s%s]%s" % ("J" if sj else "S", "J" if ej else "S", " C<=1" if p.has(" <= 1", True) else " C>1")
+    fn, fl = formulas("head_pump_headloss_constraint")
+    for case, p, brs, ex in fl:
+        sj, ej = case.sj, case.ej
+        tagp = "head pump [%s]%s" % (case.nodes, path_tag(p))
         Rf, _ = canon(S(ex, brs[-1][1]))
         chk.expect(is_zero(Rf - (A - Bc * Q ** C - HE + HS)), "R-C02-5", "%s final branch is He - Hs = A - B q^C" % tagp, loc(fn), found=str(Rf))
         exprs = [canon(S(ex, e))[0] for g, e in brs]
@@ -377,211 +687,246 @@ def run(repo, chk):
                 okk = is_zero(d)
                 chk.expect(okk, "R-C02-5", "%s: branches %d and %d agree at the break point (derivative order %d)" % (tagp, i, i + 1, order), loc(fn),
                            "pump low-flow smoothing must join the curve continuously", found=str(d)[:200])
-    fn, ex, fl = formulas("power_pump_headloss_constraint")
-    for p, brs, sj, ej in fl:
+    fn, fl = formulas("power_pump_headloss_constraint")
+    for case, p, brs, ex in fl:
+        sj, ej = case.sj, case.ej
         R, _ = canon(S(ex, brs[0][1]))
         want = cs("pump_power") + (HS - HE) * Q * sp.Rational("9810")
         chk.expect(is_zero(R - want), "R-C02-5", "power pump [%s%s]: P = rho g q (He - Hs), rho g = 9810" % ("J" if sj else "S", "J" if ej else "S"), loc(fn),
                    expected=str(want), found=str(R))
-    # get_head_curve_coefficients: 1- and 2-point formulas
+    # get_head_curve_coefficients: the method is RUN (sa/concrete.py) on pumps of the repository's own HeadPump / Curve classes; the 1- and
+    # 2-point fits are decided on sample curves (the formulas are rational in the points: generic samples, rel. tolerance 1e-9); the
+    # 3-and-more-point regression (scipy curve_fit) is NOT analysed
     gfn = repo.func(ELEM, "HeadPump.get_head_curve_coefficients")
     chk.fn(gfn)
-    inner = [n for n in gfn.body if isinstance(n, ast.FunctionDef)]
-    if not inner:
-        raise AnchorError("get_head_curve_coefficients: nested calculate_coefficients vanished")
-    ifs = [n for n in inner[0].body if isinstance(n, ast.If) and "num_points" in unparse(n.test)]
-    if not ifs:
-        raise AnchorError("get_head_curve_coefficients: no num_points dispatch")
-    ex2 = SymExec(assume=lambda t: {"positive": True})
-    outs = ex2.branch(ifs[0].test, ifs[0].body, ifs[0].orelse, State({"H": Opaque("H"), "Q": Opaque("Q"), "curve": Opaque("curve"), "self": Opaque("self")}))
-    H0, H1, Q0, Q1 = (ex2.sym(x) for x in ("H[0]", "H[1]", "Q[0]", "Q[1]"))
+    TOL = 1e-9
+
+    def close(x, y, scale):
+        return abs(x - y) <= TOL * max(abs(scale), 1e-300)
+
+    one_pt = [[(0.05, 30.0)], [(0.1234, 71.5)], [(2.0, 3.25)], [(0.75, 1000.0)]]
+    two_pt = [[(0.0, 40.0), (0.1, 30.0)], [(0.02, 55.5), (0.31, 12.25)], [(0.5, 10.0), (1.5, 4.0)], [(0.0, 30.0), (0.1, 20.0)]]
     seen = set()
-    for o in outs:
-        if o.raised:
+    fails = {"design": [], "shutoff": [], "zero": [], "p0": [], "p1": []}
+    for pts in one_pt:
+        got, err = fresh_fit(repo, pts)
+        (q0, h0), = pts
+        if err is not None:
+            for k in ("design", "shutoff", "zero"):
+                fails[k].append("%s: %s" % (pts, err))
             continue
-        npts = [t for t, v in o.conds if v and "num_points" in t]
-        if not npts or not all(k in o.env for k in "ABC"):
+        seen.add(1)
+        a_, b_, c_ = got
+        if not close(a_ - b_ * q0 ** c_, h0, h0):
+            fails["design"].append("points %s: A=%r B=%r C=%r gives H(Q0)=%r" % (pts, a_, b_, c_, a_ - b_ * q0 ** c_))
+        if not close(a_, 4.0 * h0 / 3.0, h0):
+            fails["shutoff"].append("points %s: A=%r, 4/3 H=%r" % (pts, a_, 4.0 * h0 / 3.0))
+        if not close(a_, b_ * (2 * q0) ** c_, a_):
+            fails["zero"].append("points %s: H(2 Q0)=%r" % (pts, a_ - b_ * (2 * q0) ** c_))
+    chk.expect(not fails["design"], "R-C02-5", "1-point pump curve passes through the design point", loc(gfn), found=fails["design"][:3])
+    chk.expect(not fails["shutoff"], "R-C02-5", "1-point pump curve: shut-off head 4/3 H", loc(gfn), found=fails["shutoff"][:3])
+    chk.expect(not fails["zero"], "R-C02-5", "1-point pump curve: zero head at twice the design flow", loc(gfn), found=fails["zero"][:3])
+    for pts in two_pt:
+        got, err = fresh_fit(repo, pts)
+        if err is not None:
+            for k in ("p0", "p1"):
+                fails[k].append("%s: %s" % (pts, err))
             continue
-        a_, b_, c_ = (ex2.S(o.env[k]) for k in "ABC")
-        key = npts[-1]
-        if "== 1" in key:
-            seen.add(1)
-            chk.expect(is_zero(a_ - b_ * Q0 ** c_ - H0), "R-C02-5", "1-point pump curve passes through the design point", loc(gfn), found="A=%s B=%s C=%s" % (a_, b_, c_))
-            chk.expect(is_zero(a_ - sp.Rational(4, 3) * H0), "R-C02-5", "1-point pump curve: shut-off head 4/3 H", loc(gfn), found=str(a_))
-            chk.expect(is_zero(a_ - b_ * (2 * Q0) ** c_), "R-C02-5", "1-point pump curve: zero head at twice the design flow", loc(gfn), found=str(sp.simplify(a_ - b_ * (2 * Q0) ** c_)))
-        elif "== 2" in key:
-            seen.add(2)
-            for i, (qi, hi) in enumerate(((Q0, H0), (Q1, H1))):
-                chk.expect(is_zero(a_ - b_ * qi ** c_ - hi), "R-C02-5", "2-point pump curve H = A - B Q^C passes through point %d" % i, loc(gfn),
-                           "the fitted curve must reproduce the points it was fitted to", expected="A - B*Q%d^C = H%d" % (i, i),
-                           found="A=%s, B=%s, C=%s; residual %s" % (a_, b_, c_, sp.simplify(a_ - b_ * qi ** c_ - hi)))
-    chk.expect(seen == {1, 2}, "R-C02-5", "1- and 2-point pump-curve formulas located", loc(gfn), found=sorted(seen))
-    # R-C02-5c: the memoised coefficients belong to the curve's CURRENT points: the fit is re-used only while the points it was computed
-    # from are unchanged (the points of a curve can be re-assigned in place, Curve.points has a setter)
-    calc = [n for n in gfn.body if isinstance(n, ast.FunctionDef)]
-    cfn = calc[0]
-    cparam = cfn.args.args[0].arg if cfn.args.args else None
-    key_stores = [n for n in walk(cfn) if isinstance(n, ast.Assign) and isinstance(n.targets[0], ast.Attribute) and dotted(n.targets[0].value) == "self"
-                  and unparse(n.value) in ("%s.points" % cparam, "list(%s.points)" % cparam, "tuple(%s.points)" % cparam, "copy.deepcopy(%s.points)" % cparam)]
-    # the stored key must be a COPY when Curve.points hands out its live list (else the staleness test compares the list with itself)
-    cpg = repo.func(ELEM, "Curve.points", kind="getter")
-    live = any(isinstance(r, ast.Return) and unparse(r.value) == "self._points" for r in walk(cpg))
-    if key_stores:
-        alias = unparse(key_stores[0].value) == "%s.points" % cparam
-        chk.expect(not (alias and live), "R-C02-5", "the points stored with the memoised fit are a copy, not the curve's live list", loc(gfn, key_stores[0]),
-                   "Curve.points returns the internal list: after an in-place edit (curve.points[0] = ..., .append) the stored key IS the edited list, the comparison is always equal and "
-                   "the pump keeps the coefficients of the old curve", expected="list(curve.points)", found=norm(key_stores[0]))
-    guards = [n for n in gfn.body if isinstance(n, ast.If) and any(call_name(c) == cfn.name for c in calls(ast.Module(body=n.body, type_ignores=[])))]
-    okc = False
-    why = "no guarded call of %s" % cfn.name
-    if guards and key_stores:
-        keyf = key_stores[0].targets[0].attr
-        t = guards[0].test
-        cmp_ = [c for c in ast.walk(t) if isinstance(c, ast.Compare) and isinstance(c.ops[0], ast.NotEq)
-                and {".points" in unparse(c.left), ".points" in unparse(c.comparators[0])} == {True, False} or
-                (isinstance(c, ast.Compare) and isinstance(c.ops[0], ast.NotEq) and ("self.%s" % keyf) in (unparse(c.left), unparse(c.comparators[0])))]
-        isor = isinstance(t, ast.BoolOp) and isinstance(t.op, ast.Or)
-        okc = bool(cmp_) and (isor or isinstance(t, ast.Compare)) and any(("self.%s" % keyf) in unparse(c) and ".points" in unparse(c) for c in cmp_)
-        why = unparse(t)
-    elif guards:
-        why = "%s does not record the points it was computed from; guard: %s" % (cfn.name, unparse(guards[0].test))
-    elif not guards and any(call_name(c) == cfn.name for c in calls(ast.Module(body=[b for b in gfn.body if not isinstance(b, ast.FunctionDef)], type_ignores=[]))):
-        okc, why = True, "recomputed on every call (no memo)"
-    chk.expect(okc, "R-C02-5", "get_head_curve_coefficients re-fits A, B, C whenever the curve's points differ from the points of the memoised fit", loc(gfn),
+        seen.add(2)
+        a_, b_, c_ = got
+        for i, (qi, hi) in enumerate(pts):
+            if not close(a_ - b_ * qi ** c_, hi, max(h for _q, h in pts)):
+                fails["p%d" % i].append("points %s: A=%r, B=%r, C=%r; H(Q%d)=%r" % (pts, a_, b_, c_, i, a_ - b_ * qi ** c_))
+    for i in (0, 1):
+        chk.expect(not fails["p%d" % i], "R-C02-5", "2-point pump curve H = A - B Q^C passes through point %d" % i, loc(gfn),
+                   "the fitted curve must reproduce the points it was fitted to", expected="A - B*Q%d^C = H%d" % (i, i), found=fails["p%d" % i][:3])
+    chk.expect(seen == {1, 2}, "R-C02-5", "1- and 2-point pump-curve formulas located", loc(gfn), "the fit of a 1-point and of a 2-point curve must return coefficients",
+               found=sorted(seen))
+    # R-C02-5c: the coefficients a pump reports belong to its curve's CURRENT points, whatever was computed before: each scenario computes the
+    # coefficients once (so that anything memoised is in place), changes the curve the way the API allows, and compares the coefficients
+    # reported afterwards with those of a NEW pump on a NEW curve with the same points (differential, exact equality)
+    world, _LS = make_world(repo)
+    P1, P2 = [(0.1, 30.0)], [(0.2, 45.0)]
+    L1, L2 = [(0.0, 40.0), (0.1, 30.0)], [(0.0, 50.0), (0.2, 20.0)]
+    M1, M2 = [(0.0, 40.0), (0.1, 35.0), (0.2, 20.0)], [(0.0, 60.0), (0.1, 50.0), (0.2, 25.0)]
+
+    def current_points(curve):
+        pts, err = interpreted("Curve.points", lambda: world.interp.getattr_(curve, "points"))
+        if err is not None or not isinstance(pts, (list, tuple)):
+            raise ExtractError("Curve.points of the mock world's curve: %s" % (err or repr(pts)))
+        return pts
+
+    def reassign(points):
+        def f(pump, curves):
+            world.interp.setattr_(curves["c"], "points", list(points))
+        return f
+
+    def set_item(i, pt):
+        def f(pump, curves):
+            current_points(curves["c"])[i] = pt
+        return f
+
+    def append(pt):
+        def f(pump, curves):
+            current_points(curves["c"]).append(pt)
+        return f
+
+    def other_curve(pump, curves):
+        world.interp.setattr_(pump, "pump_curve_name", "d")
+
+    def memo_scenario(start, change, other=None):
+        """-> None when the coefficients after `change` are those of the curve's current points, else a description"""
+        curves = {"c": list(start)}
+        if other is not None:
+            curves["d"] = list(other)
+        pump, objs = head_pump(repo, curves, "c")
+        first, err = head_curve_coefficients(repo, pump)
+        if err is not None:
+            return "first call on %s: %s" % (start, err)
+        again, err = head_curve_coefficients(repo, pump)
+        if err is not None or again != first:
+            return "a second call on the unchanged curve %s gives %s after %s" % (start, err or (again,), first)
+        _r, err = interpreted("changing the curve", lambda: change(pump, objs))
+        if err is not None:
+            return "changing the curve: %s" % err
+        now_curve, err = interpreted("HeadPump.get_pump_curve", lambda: world.interp.getattr_(pump, "get_pump_curve")())
+        if err is not None:
+            return "get_pump_curve: %s" % err
+        now = [tuple(pt) for pt in current_points(now_curve)]
+        after, err = head_curve_coefficients(repo, pump)
+        want, werr = fresh_fit(repo, now)
+        if (after, err) != (want, werr):
+            return "points %s -> %s: the pump reports %s, a fresh fit of the current points gives %s" % (list(start), now, err or (after,), werr or (want,))
+        return None
+
+    bad_ = [r for r in (memo_scenario(P1, set_item(0, P2[0])), memo_scenario(P1, append((0.3, 10.0))), memo_scenario(L1, set_item(1, (0.25, 10.0))),
+                        memo_scenario(M1, set_item(2, (0.2, 10.0)))) if r]
+    chk.expect(not bad_, "R-C02-5", "the points stored with the memoised fit are a copy, not the curve's live list", loc(gfn),
+               "Curve.points returns the internal list: after an in-place edit (curve.points[0] = ..., .append) a memo keyed by that very list compares equal to itself and "
+               "the pump keeps the coefficients of the old curve", expected="coefficients of the edited points", found=bad_[:3])
+    bad_ = [r for r in (memo_scenario(P1, reassign(P2)), memo_scenario(L1, reassign(L2)), memo_scenario(P1, reassign(L2)), memo_scenario(L2, reassign(P1)),
+                        memo_scenario(M1, reassign(M2)), memo_scenario(M1, reassign(L1))) if r]
+    chk.expect(not bad_, "R-C02-5", "get_head_curve_coefficients re-fits A, B, C whenever the curve's points differ from the points of the memoised fit", loc(gfn),
                "a head pump must lie on the curve fitted to its CURRENT points: after `curve.points = [...]` a stale memo makes every later run use the old curve",
-               expected="recompute if self._curve_coeffs is None or curve.points != <points stored with the memo>", found=why)
+               expected="coefficients of the re-assigned points", found=bad_[:3])
     psetter = repo.func(ELEM, "HeadPump.pump_curve_name", kind="setter")
-    chk.expect(any(isinstance(n, ast.Assign) and unparse(n.targets[0]) == "self._curve_coeffs" and const(n.value, 1) is None for n in walk(psetter)), "R-C02-5",
-               "assigning another curve to the pump (pump_curve_name setter) drops the memoised coefficients", loc(psetter))
+    chk.fn(psetter)
+    bad_ = [r for r in (memo_scenario(P1, other_curve, other=P2), memo_scenario(L1, other_curve, other=L2), memo_scenario(P1, other_curve, other=L1),
+                        memo_scenario(M1, other_curve, other=M2)) if r]
+    chk.expect(not bad_, "R-C02-5", "assigning another curve to the pump (pump_curve_name setter) drops the memoised coefficients", loc(psetter),
+               expected="coefficients of the newly assigned curve", found=bad_[:3])
     chk.floor("R-C02-5", 8 + 4 + 6 + 2)
 
     # ---------------------------------------------------------------- R-C02-6 valves
+    # the registered relation is compared AS A FUNCTION of the flow: for q > 0 and for q < 0 the branch in force (first guard that holds) must equal
+    # the documented relation -- one expression with sign(q), two branches split at q <= 0 or at q >= 0 are the same function
+    minor = sp.sign(Q) * Km * Q ** 2 - HS + HE
     valve_ref = {
-        ("prv_headloss_constraint", "Active"): [HE - cs("valve_setting") - cs("elev_end")],
-        ("prv_headloss_constraint", "Open"): [-Km * Q ** 2 - HS + HE, Km * Q ** 2 - HS + HE],
-        ("psv_headloss_constraint", "Active"): [HS - cs("valve_setting") - cs("elev_start")],
-        ("psv_headloss_constraint", "Open"): [-Km * Q ** 2 - HS + HE, Km * Q ** 2 - HS + HE],
-        ("fcv_headloss_constraint", "Active"): [Q - cs("valve_setting")],
-        ("fcv_headloss_constraint", "Open"): [-Km * Q ** 2 - HS + HE, Km * Q ** 2 - HS + HE],
-        ("tcv_headloss_constraint", "Active"): [-cs("tcv_resistance") * Q ** 2 - HS + HE, cs("tcv_resistance") * Q ** 2 - HS + HE],
-        ("tcv_headloss_constraint", "Open"): [-Km * Q ** 2 - HS + HE, Km * Q ** 2 - HS + HE],
+        ("prv_headloss_constraint", "Active"): HE - cs("valve_setting") - cs("elev_end"),
+        ("prv_headloss_constraint", "Open"): minor,
+        ("psv_headloss_constraint", "Active"): HS - cs("valve_setting") - cs("elev_start"),
+        ("psv_headloss_constraint", "Open"): minor,
+        ("fcv_headloss_constraint", "Active"): Q - cs("valve_setting"),
+        ("fcv_headloss_constraint", "Open"): minor,
+        ("tcv_headloss_constraint", "Active"): sp.sign(Q) * cs("tcv_resistance") * Q ** 2 - HS + HE,
+        ("tcv_headloss_constraint", "Open"): minor,
     }
+
+    def in_force(brs, ex, qsym):
+        """the canonical residual in force for a flow of the sign of qsym (None: a guard is not a test of the flow's sign)"""
+        for g, e in brs:
+            if g is not None:
+                if not isinstance(g, Ineq):
+                    return None
+                body = canon(g.body)[0].xreplace({Q: qsym})
+                lb = None if g.lb is None else canon(S(ex, g.lb))[0]
+                ub = None if g.ub is None else canon(S(ex, g.ub))[0]
+                if any(x is not None and x != 0 for x in (lb, ub)) or (lb is None and ub is None):
+                    return None
+                sg = sign_of(body)
+                if sg not in (1, -1) or not (body.is_positive or body.is_negative):
+                    return None
+                holds = (lb is None or sg > 0) and (ub is None or sg < 0)
+                if not holds:
+                    continue
+            return canon(S(ex, e))[0].xreplace({Q: qsym})
+        return None
+
     seenv = set()
-    for bname in ("prv_headloss_constraint", "psv_headloss_constraint", "fcv_headloss_constraint", "tcv_headloss_constraint"):
-        fn, ex, fl = formulas(bname)
-        for p, brs, sj, ej in fl:
-            stat = "Active" if p.has("LinkStatus.Active", True) else "Open"
-            if stat == "Open":
-                asserted = any(e[0] == "assert" and "LinkStatus.Open" in e[1] for e in p.st.events) or p.has("LinkStatus.Open", True)
-                chk.expect(asserted, "R-C02-6", "%s: the non-active branch is the Open status" % bname, loc(fn))
+    for bname in VALVE_BUILDERS:
+        fn, fl = formulas(bname)
+        for case, p, brs, ex in fl:
+            stat = case.status
             ref = valve_ref[(bname, stat)]
             seenv.add((bname, stat))
-            got = [canon(S(ex, e))[0] for g, e in brs]
-            okv = len(got) == len(ref) and all(is_zero(g - r) for g, r in zip(got, ref))
-            chk.expect(okv, "R-C02-6", "%s %s [%s%s]: documented valve relation" % (bname, stat, "J" if sj else "S", "J" if ej else "S"), loc(fn),
-                       expected=[str(r) for r in ref], found=[str(g) for g in got])
-            if stat == "Open" or bname == "tcv_headloss_constraint":
-                # a loss coefficient takes head in the direction of flow: the relation must be odd in q (two branches switching at q <= 0)
-                chk.expect(len(brs) == 2, "R-C02-6", "%s %s [%s%s]: the minor-loss relation has a branch for reverse flow" % (bname, stat, "J" if sj else "S", "J" if ej else "S"), loc(fn),
-                           "K*q^2 - Hs + He alone is even in q: for q < 0 the valve ADDS K*q^2 of head in the flow direction (PRV/PSV with fixed status OPEN: Hs - He = +77 m "
-                           "instead of -77 m)", expected="two branches", found="%d branch(es)" % len(brs))
-            if len(brs) == 2:
-                g = brs[0][0]
-                okg = isinstance(g, Ineq) and canon(g.body)[0] == Q and g.lb is None and S(ex, g.ub) == 0
-                chk.expect(okg, "R-C02-6", "%s %s [%s%s]: loss changes sign at q <= 0 (odd in the flow)" % (bname, stat, "J" if sj else "S", "J" if ej else "S"), loc(fn), found=str(g))
+            tagv = "%s %s [%s]%s" % (bname, stat, case.nodes, path_tag(p))
+            fwd, rev = in_force(brs, ex, QP), in_force(brs, ex, QN)
+            chk.expect(fwd is not None and is_zero(fwd - ref.xreplace({Q: QP})), "R-C02-6", "%s: documented valve relation" % tagv, loc(fn),
+                       expected=str(ref), found=[str(canon(S(ex, e))[0]) for g, e in brs])
+            # a loss coefficient takes head in the direction of flow: the relation must be odd in q
+            chk.expect(rev is not None and is_zero(rev - ref.xreplace({Q: QN})), "R-C02-6", "%s: the relation in force for reverse flow" % tagv, loc(fn),
+                       "K*q^2 - Hs + He alone is even in q: for q < 0 the valve ADDS K*q^2 of head in the flow direction (PRV/PSV with fixed status OPEN: Hs - He = +77 m "
+                       "instead of -77 m)", expected=str(ref), found=[(str(g), str(canon(S(ex, e))[0])) for g, e in brs])
     chk.expect(seenv == set(valve_ref), "R-C02-6", "all valve type/status branches located", loc(CON), found=sorted(set(valve_ref) - seenv))
     chk.floor("R-C02-6", 32)
 
     # ---------------------------------------------------------------- R-C02-7 status resolution
     members = ["Closed", "Open", "Active"]
-
-    def ls(name):
-        return Obj("LinkStatus." + ("Open" if name == "Opened" else name))
-
-    def class_attr(d):
-        parts = d.split(".")
-        if len(parts) == 2 and parts[0] == "LinkStatus":
-            return ls(parts[1])
-        raise Unknown(d)
     for cname, rule in (("Pipe", "int-closed"), ("Pump", "int-closed"), ("Valve", "user-first")):
         fn = repo.func(ELEM, "%s.status" % cname, kind="getter")
         chk.fn(fn)
+        tab = status_table(repo, cname)
         for u, i in itertools.product(members, members):
-            ev = Evaluator({"self": Obj("self", {"_user_status": ls(u), "_internal_status": ls(i)})}, class_attr)
-            got = ev.run(fn.body)
             if rule == "int-closed":
-                want = ls("Closed") if i == "Closed" else ls(u)
+                want = "Closed" if i == "Closed" else u
             else:
-                want = ls(u) if u in ("Closed", "Open") else ls(i)
-            chk.expect(got == want, "R-C02-7", "%s.status(user=%s, internal=%s) = %s" % (cname, u, i, want.name), loc(fn),
+                want = u if u in ("Closed", "Open") else i
+            chk.expect(tab[(u, i)] == want, "R-C02-7", "%s.status(user=%s, internal=%s) = %s" % (cname, u, i, want), loc(fn),
                        "effective status: pipes/pumps are closed by their internal status else follow the user; valves follow a fixed user status else the internal one",
-                       expected=want.name, found=getattr(got, "name", got))
+                       expected=want, found=tab[(u, i)])
     chk.floor("R-C02-7", 27)
 
     # ---------------------------------------------------------------- R-C02-8 no reverse flow
-    def class_consts(rel, cname):
-        out = {}
-        for n in repo.cls(rel, cname).body:
-            if isinstance(n, ast.Assign) and isinstance(n.targets[0], ast.Name) and const(n.value) is not None:
-                out[n.targets[0].id] = const(n.value)
-        return out
+    # each condition object is built by its own constructor on mock nodes / link / network and its evaluate() is run (sa/concrete.py) on one
+    # sample point per region of the (head difference, flow[, internal status]) space
+    def cond(cname, dh_start_minus_end, flow, internal="Open", shutoff=None):
+        got, err = condition_value(repo, cname, (0.0, -dh_start_minus_end), flow, internal, shutoff)
+        return got if err is None else "raises " + err
 
-    def eval_cond(cname, dh_end_minus_start=None, dh=None, flow=0.0, extra=None):
-        fn = repo.func(CTRL, "%s.evaluate" % cname)
-        cc = class_consts(CTRL, cname)
-        attrs = dict(cc)
-        hs, he = (0.0, -dh) if dh is not None else (0.0, dh_end_minus_start)
-        istat = (extra or {}).get("internal", "Open")
-        attrs.update({"_start_node": Obj("start", {"head": hs}), "_end_node": Obj("end", {"head": he}), "_cv": Obj("cv", {"flow": flow}),
-                      "_pump": Obj("pump", {"flow": flow, "_flow": flow, "_internal_status": Obj("LinkStatus." + istat), "status": Obj("LinkStatus." + istat)}),
-                      "_wn": Obj("wn", {"sim_time": 0})})
-        if extra:
-            attrs.update(extra)
-
-        def call_hook(name, n, ev):
-            if name.endswith("get_head_curve_coefficients"):
-                return [extra["A"], 1.0, 1.0]
-            if name.endswith("speed_timeseries.at"):
-                return 1.0
-            return NotImplemented
-        def class_attr_(d):
-            parts = d.split(".")
-            if len(parts) == 2 and parts[0] == "LinkStatus":
-                return Obj("LinkStatus." + ("Open" if parts[1] == "Opened" else parts[1]))
-            raise Unknown(d)
-        ev = Evaluator({"self": Obj("self", attrs)}, class_attr_, call_hook)
-        ev.env["abs"] = None
-        ev.env.pop("abs")
-        return ev.run(fn.body), fn, cc
-    _, fclose, cc = eval_cond("_CloseCVCondition", dh=0.0)
-    chk.fn(fclose)
-    Ht, Qt = cc.get("Htol"), cc.get("Qtol")
-    if not (Ht and Qt and 0 < Ht < 1e-2 and 0 < Qt < 1e-3):
+    fclose, fopen = repo.func(CTRL, "_CloseCVCondition.evaluate"), repo.func(CTRL, "_OpenCVCondition.evaluate")
+    chk.fn(fclose, fopen)
+    cc = class_constants(repo, CTRL, "_CloseCVCondition")
+    Ht, Qt = named_constant(cc, "Htol", HTOL_SI), named_constant(cc, "Qtol", QTOL_SI)
+    if not (0 < Ht < 1e-2 and 0 < Qt < 1e-3):
         chk.bad("R-C02-8", "_CloseCVCondition tolerances are small positive numbers", loc(fclose), found=cc)
     else:
         dhs = [-1.0, -2 * Ht, -Ht / 2, 0.0, Ht / 2, 2 * Ht, 1.0]
         qs = [-1.0, -2 * Qt, -Qt / 2, 0.0, Qt / 2, 1.0]
         for dh, q in itertools.product(dhs, qs):
-            close, f1, _ = eval_cond("_CloseCVCondition", dh=dh, flow=q)
-            opn, f2, _ = eval_cond("_OpenCVCondition", dh=dh, flow=q)
+            close = cond("_CloseCVCondition", dh, q)
+            opn = cond("_OpenCVCondition", dh, q)
             must_close = q < -Qt or dh < -Ht
             region = "dh=%+.3g*Htol q=%+.3g*Qtol" % (dh / Ht, q / Qt)
             if must_close:
-                chk.expect(close is True, "R-C02-8", "check valve closes on reverse flow / adverse head [%s]" % region, loc(f1),
+                chk.expect(close is True, "R-C02-8", "check valve closes on reverse flow / adverse head [%s]" % region, loc(fclose),
                            "a CV pipe must close whenever flow < -Qtol or Hs - He < -Htol", expected=True, found=close)
-                chk.expect(opn is False, "R-C02-8", "check valve does not re-open while reverse conditions hold [%s]" % region, loc(f2), expected=False, found=opn)
-            chk.expect(not (close is True and opn is True), "R-C02-8", "close and open conditions are never both true [%s]" % region, loc(f2))
+                chk.expect(opn is False, "R-C02-8", "check valve does not re-open while reverse conditions hold [%s]" % region, loc(fopen), expected=False, found=opn)
+            chk.expect(not (close is True and opn is True) and isinstance(close, bool) and isinstance(opn, bool), "R-C02-8",
+                       "close and open conditions are never both true [%s]" % region, loc(fopen), found="close=%s open=%s" % (close, opn))
     # pumps: closed above the shut-off head AND whenever they carry reverse flow; never both conditions true; able to re-open below the shut-off head
     Aval = 50.0
-    for pclose, popen, hmax_of in (("_CloseHeadPumpCondition", "_OpenHeadPumpCondition", lambda cc_: Aval), ("_ClosePowerPumpCondition", "_OpenPowerPumpCondition", lambda cc_: cc_.get("Hmax"))):
-        _, f1, cc1 = eval_cond(pclose, dh_end_minus_start=0.0, extra={"A": Aval})
-        hmax = hmax_of(cc1)
-        ht = cc1.get("_Htol", cc1.get("Htol", 0))
-        qt = cc1.get("Qtol", Qt)
+    for pclose, popen, head in (("_CloseHeadPumpCondition", "_OpenHeadPumpCondition", True), ("_ClosePowerPumpCondition", "_OpenPowerPumpCondition", False)):
+        f1, f2 = repo.func(CTRL, pclose + ".evaluate"), repo.func(CTRL, popen + ".evaluate")
+        chk.fn(f1, f2)
+        cc1 = class_constants(repo, CTRL, pclose)
+        # a head pump's shut-off head is the A its (stubbed) curve fit reports; a power pump has none (the class constant Hmax, 1e10)
+        hmax = Aval if head else named_constant(cc1, "Hmax", 1e10)
+        ht = named_constant(cc1, "Htol", HTOL_SI)
+        qt = named_constant(cc1, "Qtol", Qt)
         dvals = [hmax - 1.0, hmax + 1.0] if hmax < 1e9 else [0.0, 10.0]
         for d, q, ist in itertools.product(dvals, (-1.0, -2 * qt, 0.0, 1.0), ("Open", "Closed")):
-            close, f1, _ = eval_cond(pclose, dh_end_minus_start=d, flow=q, extra={"A": Aval, "internal": ist})
-            opn, f2, _ = eval_cond(popen, dh_end_minus_start=d, flow=q, extra={"A": Aval, "internal": ist})
+            close = cond(pclose, -d, q, ist, Aval)
+            opn = cond(popen, -d, q, ist, Aval)
             region = "dh-Hmax=%+.3g q=%+.3g*Qtol internal=%s" % (d - hmax, q / qt, ist)
             must_close = q < -qt or d > hmax + ht
             if must_close:
@@ -593,8 +938,8 @@ def run(repo, chk):
                 chk.expect(close is False, "R-C02-8", "%s leaves a forward-running pump below the shut-off head alone [%s]" % (pclose, region), loc(f1), expected=False, found=close)
                 if d < hmax - 0.5:
                     chk.expect(opn is True, "R-C02-8", "%s re-opens a pump well below the shut-off head [%s]" % (popen, region), loc(f2), expected=True, found=opn)
-            chk.expect(not (close is True and opn is True), "R-C02-8", "%s / %s are never both true [%s]" % (pclose, popen, region), loc(f2))
-    chk.fn(f1, f2)
+            chk.expect(not (close is True and opn is True) and isinstance(close, bool) and isinstance(opn, bool), "R-C02-8",
+                       "%s / %s are never both true [%s]" % (pclose, popen, region), loc(f2), found="close=%s open=%s" % (close, opn))
     chk.floor("R-C02-8", 40)
 
 
@@ -619,5 +964,39 @@ WITNESSES = [
          new="        if self._user_status == LinkStatus.Closed:\n            return LinkStatus.Closed\n        else:\n            return self._internal_status\n\n    @property\n    def friction_factor", rule="R-C02-7"),
     dict(name="cv-qtol-sign", file=CTRL, old="            elif self._cv.flow < -self.Qtol:\n                return True\n            else:\n                return False\n        else:\n            if self._cv.flow < -self.Qtol:",
          new="            elif self._cv.flow < -self.Qtol:\n                return True\n            else:\n                return False\n        else:\n            if self._cv.flow < -self.Htol:", rule="R-C02-8"),
+    dict(name="pump-curve-1pt-coefficient", file=ELEM, old="                B = (1.0/3.0)*(H[0]/(Q[0]**2))", new="                B = (1.0/2.0)*(H[0]/(Q[0]**2))", rule="R-C02-5"),
+    dict(name="pump-curve-2pt-intercept", file=ELEM, old="                A = H[0] + B * Q[0]", new="                A = H[0] - B * Q[0]", rule="R-C02-5"),
+    dict(name="valve-open-status-ignores-user-closed", file=ELEM, old="        if self._user_status == LinkStatus.Closed:\n            return LinkStatus.Closed\n        elif self._user_status == LinkStatus.Open:",
+         new="        if self._user_status == LinkStatus.Active:\n            return LinkStatus.Closed\n        elif self._user_status == LinkStatus.Open:", rule="R-C02-7"),
+    _W("isolated-link-keeps-head-loss-row", "            if status == LinkStatus.Closed or link._is_isolated:\n                con = aml.Constraint(f)\n            else:\n                start_node_name = link.start_node_name\n                end_node_name = link.end_node_name\n                start_node = wn.get_node(start_node_name)\n                end_node = wn.get_node(end_node_name)\n                if isinstance(start_node, wntr.network.Junction):\n                    start_h = m.head[start_node_name]\n                else:\n                    start_h = m.source_head[start_node_name]\n                if isinstance(end_node, wntr.network.Junction):\n                    end_h = m.head[end_node_name]\n                else:\n                    end_h = m.source_head[end_node_name]\n\n                if status == LinkStatus.Active:\n                    con = aml.ConditionalExpression()\n                    con.add_condition(aml.inequality(f, ub=0), -m.tcv_resistance",
+       "            if status == LinkStatus.Closed and link._is_isolated:\n                con = aml.Constraint(f)\n            else:\n                start_node_name = link.start_node_name\n                end_node_name = link.end_node_name\n                start_node = wn.get_node(start_node_name)\n                end_node = wn.get_node(end_node_name)\n                if isinstance(start_node, wntr.network.Junction):\n                    start_h = m.head[start_node_name]\n                else:\n                    start_h = m.source_head[start_node_name]\n                if isinstance(end_node, wntr.network.Junction):\n                    end_h = m.head[end_node_name]\n                else:\n                    end_h = m.source_head[end_node_name]\n\n                if status == LinkStatus.Active:\n                    con = aml.ConditionalExpression()\n                    con.add_condition(aml.inequality(f, ub=0), -m.tcv_resistance", "R-C02-1"),
+    # ---- behaviour-preserving variants (must stay quiet)
+    dict(name="preserving-pump-condition-subscript-and-named-tolerance", file=CTRL,
+         old="        a, b, c = self._pump.get_head_curve_coefficients()\n        if self._pump.speed_timeseries.at(self._wn.sim_time) != 1.0:\n            raise NotImplementedError('Pump speeds other than 1.0 are not yet supported.')\n        Hmax = a\n        dh = self._end_node.head - self._start_node.head\n        if dh > Hmax + self._Htol:\n            return True\n        if self._pump.flow is not None and self._pump.flow < -2.83168e-6:\n            return True\n        return False\n",
+         new="        Hmax = self._pump.get_head_curve_coefficients()[0]\n        if self._pump.speed_timeseries.at(self._wn.sim_time) != 1.0:\n            raise NotImplementedError('Pump speeds other than 1.0 are not yet supported.')\n        dh = self._end_node.head - self._start_node.head\n        flow = self._pump.flow\n        return dh > Hmax + self._Htol or (flow is not None and flow < -self._Qtol)\n",
+         also=[("class _CloseHeadPumpCondition(ControlCondition):\n    \"\"\"\n    Prevents reverse flow in pumps.\n    \"\"\"\n    _Htol = 0.0001524\n",
+                "class _CloseHeadPumpCondition(ControlCondition):\n    \"\"\"\n    Prevents reverse flow in pumps.\n    \"\"\"\n    _Htol = 0.0001524\n    _Qtol = 2.83168e-6\n")], rule=None, silent=True),
+    dict(name="preserving-cv-condition-flattened", file=CTRL,
+         old="        if abs(dh) > self.Htol:\n            if dh < -self.Htol:\n                return True\n            elif self._cv.flow < -self.Qtol:\n                return True\n            else:\n                return False\n        else:\n            if self._cv.flow < -self.Qtol:\n                return True\n            else:\n                return False\n",
+         new="        reverse = self._cv.flow < -self.Qtol\n        return bool(dh < -self.Htol or reverse)\n", rule=None, silent=True),
+    dict(name="preserving-curve-fit-guard-first-comprehensions-unpacking", file=ELEM,
+         old="            Q = []\n            H = []\n            for pt in curve.points:\n                Q.append(pt[0])\n                H.append(pt[1])\n            \n            # 1-Point curve - Replicate EPANET for a one point curve\n            if curve.num_points == 1:",
+         new="            n_pts = curve.num_points\n            if n_pts < 1:\n                raise RuntimeError('Head pump ' + self.name + ' has an empty pump curve.')\n            Q, H = [pt[0] for pt in curve.points], [pt[1] for pt in curve.points]\n            if n_pts == 1:",
+         also=[("        A = self._curve_coeffs[0]\n        B = self._curve_coeffs[1]\n        C = self._curve_coeffs[2]\n        \n        return A,B,C", "        A, B, C = self._curve_coeffs\n        return A, B, C")],
+         rule=None, silent=True),
+    dict(name="preserving-curve-fit-returns-coefficients-caller-memoises", file=ELEM,
+         old="            self._coeffs_curve_points = list(curve.points)                \n            self._curve_coeffs = [A,B,C]\n",
+         new="            return [A, B, C]\n",
+         also=[("            calculate_coefficients(curve)\n", "            fitted = calculate_coefficients(curve)\n            self._coeffs_curve_points = list(curve.points)\n            self._curve_coeffs = fitted\n")],
+         rule=None, silent=True),
+    dict(name="preserving-pipe-status-conditional-expression", file=ELEM,
+         old="        if self._internal_status == LinkStatus.Closed:\n            return LinkStatus.Closed\n        else:\n            return self._user_status\n\n    @property\n    def friction_factor",
+         new="        closed = self._internal_status is LinkStatus.Closed\n        return {True: LinkStatus.Closed, False: self._user_status}[closed]\n\n    @property\n    def friction_factor", rule=None, silent=True),
+    _W("preserving-closed-guard-reordered-and-split", "            if status == LinkStatus.Closed or link._is_isolated:\n                con = aml.Constraint(f)\n            else:\n                eps = 1e-5",
+       "            if link._is_isolated:\n                con = aml.Constraint(f)\n            elif not status != LinkStatus.Closed:\n                con = aml.Constraint(f)\n            else:\n                eps = 1e-5", None, silent=True),
+    _W("preserving-tcv-one-odd-expression", "                    con = aml.ConditionalExpression()\n                    con.add_condition(aml.inequality(f, ub=0), -m.tcv_resistance[link_name] * f ** 2 - start_h + end_h)\n                    con.add_final_expr(m.tcv_resistance[link_name] * f ** 2 - start_h + end_h)\n                    con = aml.Constraint(con)\n",
+       "                    con = aml.Constraint(aml.sign(f) * m.tcv_resistance[link_name] * f ** 2 - start_h + end_h)\n", None, silent=True),
+    _W("preserving-valve-status-dispatch-order", "                if status == LinkStatus.Active:\n                    con = aml.ConditionalExpression()\n                    con.add_condition(aml.inequality(f, ub=0), -m.tcv_resistance[link_name] * f ** 2 - start_h + end_h)\n                    con.add_final_expr(m.tcv_resistance[link_name] * f ** 2 - start_h + end_h)\n                    con = aml.Constraint(con)\n                else:\n                    assert status == LinkStatus.Open\n                    con = aml.ConditionalExpression()\n                    con.add_condition(aml.inequality(f, ub=0), -m.minor_loss[link_name] * f ** 2 - start_h + end_h)\n                    con.add_final_expr(m.minor_loss[link_name] * f ** 2 - start_h + end_h)\n                    con = aml.Constraint(con)\n",
+       "                coefficient = m.minor_loss[link_name] if status != LinkStatus.Active else m.tcv_resistance[link_name]\n                con = aml.ConditionalExpression()\n                con.add_condition(aml.inequality(f, ub=0), -coefficient * f ** 2 - start_h + end_h)\n                con.add_final_expr(coefficient * f ** 2 - start_h + end_h)\n                con = aml.Constraint(con)\n", None, silent=True),
     _W("reassociate-preserving", "con = aml.Constraint(m.pump_power[link_name] + (start_h - end_h) * f * (9.81 * 1000.0))", "hd = start_h - end_h\n                con = aml.Constraint((9.81 * 1000.0) * f * hd + m.pump_power[link_name])", None, silent=True),
 ]
